@@ -187,26 +187,29 @@ impl ReadBufPool {
         let tail = ring_tail.load(Ordering::Acquire);
         let ring_idx = tail & self.tail_mask;
         let ring_buf = unsafe {
-            &mut *(ptr::addr_of_mut!((*self.ring_addr).__bindgen_anon_1.bufs)
-                .cast::<MaybeUninit<libc::io_uring_buf>>()
-                .add(ring_idx as usize))
+            ptr::addr_of_mut!((*self.ring_addr).__bindgen_anon_1.bufs)
+                .cast::<libc::io_uring_buf>()
+                .add(ring_idx as usize)
         };
         // NOTE: initially poisoned in ReadBufPool::new.
         asan::unpoison(ring_buf);
         log::trace!(buffer_group = self.id, buffer = buf_id, addr:? = ptr; "reregistering buffer");
-        ring_buf.write(libc::io_uring_buf {
-            addr: ptr.cast::<u8>().as_ptr().addr() as u64,
-            len: self.buf_size,
-            bid: buf_id,
-            resv: 0,
-        });
+        // NOTE: we MUST not write the `resv` field, for the first buffer in
+        // the ring it overlaps with the ring tail. Overwriting it would reset
+        // the tail (to zero) until we update it below, in the mean time the
+        // kernel could read it.
+        unsafe {
+            (&raw mut (*ring_buf).addr).write(ptr.cast::<u8>().as_ptr().addr() as u64);
+            (&raw mut (*ring_buf).len).write(self.buf_size);
+            (&raw mut (*ring_buf).bid).write(buf_id);
+        }
         // NOTE: unpoisoned above.
         asan::poison_region(
-            ring_buf.as_ptr().cast(),
+            ring_buf.cast(),
             // Don't poison the `resv` field, which overlaps with the ring tail
             // for the first buffer.
             size_of::<libc::io_uring_buf>()
-                - if ptr::eq(ring_buf.as_ptr(), self.ring_addr.cast()) {
+                - if ptr::eq(ring_buf.cast(), self.ring_addr) {
                     size_of::<u16>()
                 } else {
                     0
